@@ -9,6 +9,7 @@ import (
 	"path/filepath"
 	"runtime/debug"
 	"sort"
+	"strconv"
 	"strings"
 	"sync"
 	"testing"
@@ -48,6 +49,17 @@ func shardID() string {
 		return s
 	}
 	return "0"
+}
+
+// gridShard returns this process' shard index and the number of shards an
+// exhaustive enumeration is split into (cell i belongs to shard i % n).
+func gridShard() (int, int) {
+	sh, _ := strconv.Atoi(os.Getenv("VERIF_SHARD"))
+	n, _ := strconv.Atoi(os.Getenv("VERIF_NSHARDS"))
+	if n < 1 {
+		return 0, 1
+	}
+	return sh % n, n
 }
 
 // ---------------------------------------------------------------------------
